@@ -7,7 +7,7 @@ sys.path.insert(0, os.path.join(VERIF, "mir2smt"))
 import kani_run
 
 BUILD = kani_run.BUILD
-REPO_RUST = "/repo/rust"
+REPO_RUST = kani_run.REPO + "/rust"
 _program = {}
 
 
